@@ -2,6 +2,7 @@ package gen
 
 import (
 	"pgregory.net/rapid"
+	"strings"
 
 	"github.com/flamego/flamego/verifharness/internal/model"
 	"github.com/flamego/flamego/verifharness/internal/rt"
@@ -82,6 +83,39 @@ func Requests(t *rapid.T, regs []rt.Reg, max int) []rt.Req {
 			d := rt.Deriv(g.R)
 			short := rapid.IntRange(0, 2).Draw(t, "short") == 0
 			segs = MutatePath(t, Instance(t, d, short), lits)
+			if rapid.IntRange(0, 7).Draw(t, "nearmiss") == 0 {
+				// a near miss of a regex segment: the instance with that segment made
+				// of strings its expressions just do not match
+				inst := Instance(t, d, short)
+				for j, sg := range d.Segs {
+					if j >= len(inst) {
+						break
+					}
+					if k, _, _ := sg.Classify(); k != model.KRegex {
+						continue
+					}
+					var b strings.Builder
+					for _, e := range sg.Elems {
+						switch {
+						case e.Params != nil:
+							for _, p := range e.Params {
+								if x, ok := ExprByRe(p.Value); ok && len(x.Non) > 0 {
+									b.WriteString(pick(t, "non", x.Non))
+								} else {
+									b.WriteString(pick(t, "nonval", []string{"a:b", "a?b", "", "1", "-", "A"}))
+								}
+							}
+						case e.Bind != "":
+							b.WriteString("x")
+						default:
+							b.WriteString(e.Lit)
+						}
+					}
+					inst[j] = b.String()
+					break
+				}
+				segs = inst
+			}
 			ms := model.ExpandMethod(g.M)
 			m = ms[0]
 			if len(ms) > 1 {
